@@ -126,8 +126,12 @@ def explore_job(job: Job, seed=0, second_solver=False):
                     elif verdict is False or (verdict is not True and not verdict):
                         violating = z3.BoolVal(True)
                     if violating is None:
+                        if os.environ.get('VFW_DEBUG_REGIONS') == clause:
+                            out.setdefault('debug', []).append(('ok', zsym.model_to_dict(drv, drv.model()), ''))
                         continue
                     cr['violated'] += 1
+                    if os.environ.get('VFW_DEBUG_REGIONS') == clause:
+                        out.setdefault('debug', []).append(('V', zsym.model_to_dict(drv, drv.check_sat(violating)[1]), str(z3.simplify(pc))[:3000]))
                     # ---- attribute to known findings
                     ks = [e for e in known if e.get('clause') == clause]
                     model = None
